@@ -226,6 +226,7 @@ def check_pow2(fb, bits, via="traced"):
         x = x[::step]
         c = utils.NumpyContext(f.ftype)
         r = np.array([bool(fpa.is_power_of_two(c, v)) for v in x], dtype=bool)
+        rinv = np.array([bool(fpa.is_power_of_two(c, v, invert=True)) for v in x], dtype=bool)
     mag = (bits & np.uint64(~f.sign_mask & ((1 << f.bits) - 1))).astype(np.uint64)
     e = (mag >> np.uint64(f.mbits)).astype(np.int64)
     m = mag & np.uint64(f.man_mask)
@@ -239,6 +240,9 @@ def check_pow2(fb, bits, via="traced"):
     for i in np.nonzero(badmask)[0][:20]:
         cls = "is_power_of_two/%s/%s" % ("false-negative" if truth[i] else "false-positive", "subnormal" if e[i] == 0 else "normal")
         out.append((cls, "is_power_of_two(%r) [%s] = %s" % (x[i], via, bool(r[i])), {"subject": "is_power_of_two", "fmt": fb, "bits": [int(bits[i])], "via": via}))
+    if via != "traced":
+        for i in np.nonzero(dom & (rinv == truth))[0][:20]:
+            out.append(("is_power_of_two/invert-not-negation", "is_power_of_two(%r, invert=True) [%s] = %s although %r %s a power of two" % (x[i], via, bool(rinv[i]), x[i], "is" if truth[i] else "is not"), {"subject": "is_power_of_two", "fmt": fb, "bits": [int(bits[i])], "via": via}))
     return [(c, w) for c, w, _ in out] if False else out, int(dom.sum()), int((dom & truth).sum())
 
 
